@@ -11,6 +11,9 @@ Open Scope string_scope.
 Inductive site_class :=
   | SortedBeforeEmit      (* collected into a Vec and sorted by key before anything is emitted: c13_render_order_independent /
                              c13_cert_order_independent *)
+  | MapIntoMap            (* a map's entries are inserted into another map that is only ever looked up by key: the order
+                             matters only when two providers report the same key (MultiSymbolProvider: one provider
+                             reports stats; single-provider Symbolizer stats are c13_stats_independent) *)
   | InPlaceByIndex.       (* join_all over iter_mut(): future i owns slot i, results are not collected at all:
                              c13_walks_in_place_interleaving_independent, c13_join_by_index *)
 
@@ -18,7 +21,10 @@ Definition modelled_hash_sites : list ((string * string * string) * site_class) 
   (("processor/process_state.rs", "print_json",
     "letmutsorted=limits.limits.iter().collect::<Vec<_>>();sorted.sort_by(|a,b|a.0.cmp(b.0))"), SortedBeforeEmit);
   (("processor/evil.rs", "handle_evil",
-    "letmutcerts=certs.into_iter().collect::<Vec<_>>();certs.sort()"), SortedBeforeEmit)
+    "letmutcerts=certs.into_iter().collect::<Vec<_>>();certs.sort()"), SortedBeforeEmit);
+  (("unwind/symbols/mod.rs", "stats", "result.extend(p.stats())"), MapIntoMap);
+  (("breakpad-symbols/sym_file/walker.rs", "walk_with_stack_cfi",
+    "letmutexprs:Vec<_>=exprs.into_iter().collect();exprs.sort_unstable()"), SortedBeforeEmit)
 ].
 
 Definition modelled_concurrency_sites : list ((string * string * string) * site_class) := [
